@@ -49,8 +49,18 @@ Definition cu_get (fuel : nat) (c : cursor) : option (cursor * option item) :=
   end.
 
 Definition cu_release (c : cursor) : cursor := cu_with_tree c (mx_release (cu_tree c)).
-(* fiterator.SetBackward only forwards the call: the buffer and the valid flag stay *)
-Definition cu_set_backward (b : bool) (c : cursor) : cursor := cu_with_tree c (mx_set_backward b (cu_tree c)).
+
+(* The two places where the cursor code was repaired, as variant flags (true = the code as it stands):
+   drop:   fiterator.SetBackward forwards the call and drops its one-event buffer (valid = false), so that the next Get
+           goes through the tree again; false = the buffer and the valid flag stay (the code before the repair);
+   settle: crsr.Offset starts (for offs <> 0) with a settling Get; false = it starts with Next at once. *)
+Definition code_drops_buffer : bool := true.
+Definition code_settles_offset : bool := true.
+
+Definition cu_set_backward_v (drop : bool) (b : bool) (c : cursor) : cursor :=
+  mkCur (mx_set_backward b (cu_tree c)) (cu_flt c) (cu_le c)
+        (if drop then (match cu_flt c with Some _ => false | None => cu_valid c end) else cu_valid c) (cu_n c).
+Definition cu_set_backward : bool -> cursor -> cursor := cu_set_backward_v code_drops_buffer.
 Definition cu_current_pos (c : cursor) : option (Z * Z) := mx_current_pos (cu_tree c).
 
 Definition pos_eqb (a b : option (Z * Z)) : bool :=
@@ -87,36 +97,43 @@ Fixpoint offset_loop (fuel : nat) (k : nat) (c : cursor) (pos : option (Z * Z)) 
       end
   end.
 
-Definition cu_offset (fuel : nat) (offs : Z) (c : cursor) : option cursor :=
+Definition cu_offset_v (settle drop : bool) (fuel : nat) (offs : Z) (c : cursor) : option cursor :=
   if offs =? 0 then Some c
-  else if offs >? 0 then option_map fst (offset_loop fuel (Z.to_nat offs) c None)
   else
-    let k := Z.to_nat (- offs) in
-    match cu_get fuel c with
+    (* the settling Get at the top of Offset: with a filter the tree may stand on an event the filter rejects *)
+    match (if settle then option_map fst (cu_get fuel c) else Some c) with
     | None => None
-    | Some (c1, r) =>
-        let pos := cu_current_pos c1 in
-        let c2 := cu_set_backward true c1 in
-        let start :=
-          match r with
-          | None => match cu_get fuel c2 with
-                    | None => None
-                    | Some (c3, _) => Some (c3, cu_current_pos c3, Nat.pred k)
-                    end
-          | Some _ => match iterate_to_pos fuel c2 pos with
-                      | None => None
-                      | Some c3 => Some (c3, pos, k)
-                      end
-          end in
-        match start with
-        | None => None
-        | Some (c3, pos3, k3) =>
-            match offset_loop fuel k3 c3 pos3 with
-            | None => None
-            | Some (c4, pos4) => iterate_to_pos fuel (cu_set_backward false c4) pos4
-            end
-        end
+    | Some c0 =>
+        if offs >? 0 then option_map fst (offset_loop fuel (Z.to_nat offs) c0 None)
+        else
+          let k := Z.to_nat (- offs) in
+          match cu_get fuel c0 with
+          | None => None
+          | Some (c1, r) =>
+              let pos := cu_current_pos c1 in
+              let c2 := cu_set_backward_v drop true c1 in
+              let start :=
+                match r with
+                | None => match cu_get fuel c2 with
+                          | None => None
+                          | Some (c3, _) => Some (c3, cu_current_pos c3, Nat.pred k)
+                          end
+                | Some _ => match iterate_to_pos fuel c2 pos with
+                            | None => None
+                            | Some c3 => Some (c3, pos, k)
+                            end
+                end in
+              match start with
+              | None => None
+              | Some (c3, pos3, k3) =>
+                  match offset_loop fuel k3 c3 pos3 with
+                  | None => None
+                  | Some (c4, pos4) => iterate_to_pos fuel (cu_set_backward_v drop false c4) pos4
+                  end
+              end
+          end
     end.
+Definition cu_offset : nat -> Z -> cursor -> option cursor := cu_offset_v code_settles_offset code_drops_buffer.
 
 (* ---- newCursor *)
 Inductive posspec := PHead | PTail | PAt (l : list (nat * (Z * Z))).
@@ -173,8 +190,8 @@ Fixpoint page_loop (fuel : nat) (limit : nat) (c : cursor) : option (cursor * li
 
 Definition positions (c : cursor) : list (nat * (Z * Z)) := map (fun tl => (fst tl, l_pos (snd tl))) (mx_leaves (cu_tree c)).
 
-Definition query (fuel : nat) (c : cursor) (offs : Z) (limit : nat) : option (cursor * list item * list (nat * (Z * Z))) :=
-  match cu_offset fuel offs c with
+Definition query_v (settle drop : bool) (fuel : nat) (c : cursor) (offs : Z) (limit : nat) : option (cursor * list item * list (nat * (Z * Z))) :=
+  match cu_offset_v settle drop fuel offs c with
   | None => None
   | Some c1 =>
       match page_loop fuel limit c1 with
@@ -186,6 +203,8 @@ Definition query (fuel : nat) (c : cursor) (offs : Z) (limit : nat) : option (cu
           end
       end
   end.
+Definition query : nat -> cursor -> Z -> nat -> option (cursor * list item * list (nat * (Z * Z))) :=
+  query_v code_settles_offset code_drops_buffer.
 
 (* ---- scripted runs of a cursor (the direct runs of the correspondence check, and the interleavings of C04) *)
 Inductive cop := OGet | ONext | ORelease | OSetBackward (b : bool) | OOffset (k : Z) | OPos.
